@@ -36,6 +36,15 @@ theorem table_statement_effect (m : RMatrix) (t : WTable) (hk : (t.entries.map (
     applyItem m (.vt t.line) = { m with tables := applyCore.assocSetTable m.tables t.line } :=
   apply_vt m t hk
 
+/-- C20 for this statement: a table with a key that `int()` refuses changes nothing but the count of printed errors -/
+theorem refused_table_only_counted (m : RMatrix) (v : VtLine)
+    (h : ((v.entries.foldl (fun acc (e : Str × Str) => assocSet acc e.1 e.2) ([] : List (Str × Str))).mapM
+      (fun (e : Str × Str) => (pyIntKey e.1).map fun i => (i, e.2))) = none) :
+    applyItem m (.vt v) = m.err := by
+  have e1 : applyItem m (.vt v) = applyCore m (.vt v) := rfl
+  rw [e1]
+  simp only [applyCore, h]
+
 /-! ## non-vacuity, and the line error of a key that is no number -/
 
 def exTables : List WTable := [⟨"Gear".toList, [(0, "N".toList), (1, "D".toList), (15, "invalid \"x\"".toList)]⟩, ⟨"Empty".toList, []⟩]
